@@ -434,7 +434,7 @@ Section WithWorld.
         + destruct (cl_def cl) as [i|].
           * apply spec_set_entry_any; intros; discriminate.
           * destruct (cl_ctx cl) as [j|]; [apply spec_kid_add|].
-            destruct (w_top w); [apply spec_set_entry_any|apply spec_dep_set]; intros; discriminate.
+            destruct (w_top w); [apply spec_set_entry_any|apply spec_dep_set|apply spec_set_entry_any]; intros; discriminate.
         + intros u. apply spec_ret. intros; discriminate.
     Qed.
 
@@ -573,19 +573,37 @@ Section WithWorld.
       - apply spec_fail; exact Hnt.
     Qed.
 
+    Lemma spec_mod_load_own cl i k : spec anyS (mod_load_own w ixs LE FD cl i k) (post_found k).
+    Proof.
+      unfold mod_load_own.
+      eapply spec_bind; [apply (spec_get_val i k)|]. intros [e0|].
+      + intros s s' r Hi He Hm. inversion Hm; subst. split; [exact Hi|].
+        intros v Hv. inversion Hv; subst. apply (val_found i). apply (inv_val _ Hi). symmetry; assumption.
+      + apply spec_any. eapply spec_bind; [apply spec_find|]. intros [e|].
+        * apply spec_ret. intros s _ Hp v Hv. apply (val_found i). apply Hp; exact Hv.
+        * apply spec_any. eapply spec_seq with (Mid := fun _ _ => True).
+          -- apply spec_set_entry_any; intros; discriminate.
+          -- intros u. apply spec_ret. intros s _ _ v Hv; discriminate.
+    Qed.
+
     Lemma spec_mod_load_entry cl i k : spec anyS (mod_load_entry w ixs LE FD cl i k) (post_found k).
     Proof.
       unfold mod_load_entry. destruct (shadow w k) as [nm|] eqn:Sh.
       - apply spec_ret. intros s _ _ v Hv. inversion Hv; subst v. pose proof (shadow_wf _ _ Sh) as ->.
         split; [reflexivity|]. right. split; auto.
-      - eapply spec_bind; [apply (spec_get_val i k)|]. intros [e0|].
-        + intros s s' r Hi He Hm. inversion Hm; subst. split; [exact Hi|].
-          intros v Hv. inversion Hv; subst. apply (val_found i). apply (inv_val _ Hi). symmetry; assumption.
-        + apply spec_any. eapply spec_bind; [apply spec_find|]. intros [e|].
-          * apply spec_ret. intros s _ Hp v Hv. apply (val_found i). apply Hp; exact Hv.
-          * apply spec_any. eapply spec_seq with (Mid := fun _ _ => True).
-            -- apply spec_set_entry_any; intros; discriminate.
-            -- intros u. apply spec_ret. intros s _ _ v Hv; discriminate.
+      - apply spec_mod_load_own.
+    Qed.
+
+    (* a file-based loader below np file-based loaders *)
+    Lemma spec_chain_load_entry np : forall cl i k,
+      spec anyS (chain_load_entry w ixs LE FD np cl i k) (post_found k).
+    Proof.
+      induction np as [|np IH]; intros cl i k; cbn [chain_load_entry].
+      - apply spec_mod_load_entry.
+      - eapply spec_bind; [apply IH|]. intros [[v|]|].
+        + apply spec_ret. intros s _ Hp. exact Hp.
+        + apply spec_any. apply spec_mod_load_own.
+        + apply spec_any. apply spec_mod_load_own.
     Qed.
 
     Lemma spec_dep_loop cl k n : forall i,
@@ -634,7 +652,9 @@ Section WithWorld.
     Qed.
 
     Lemma spec_top_load_entry cl k : spec anyS (top_load_entry w ixs LE FD cl k) (post_found k).
-    Proof. unfold top_load_entry. destruct (w_top w); [apply spec_mod_load_entry|apply spec_dep_load_entry]. Qed.
+    Proof.
+      unfold top_load_entry. destruct (w_top w); [apply spec_mod_load_entry|apply spec_dep_load_entry|apply spec_chain_load_entry].
+    Qed.
 
     Lemma spec_ctx_load_entry cl k : spec anyS (ctx_load_entry w ixs LE FD cl k) (post_found k).
     Proof.
@@ -1161,7 +1181,7 @@ Section Surfaces.
     file_at (mod_at i) p = Some f -> bad_err i p f k = Some e ->
     mod_load_entry w ixs LE FD cl i k s = (after_read s i k p, Er e).
   Proof.
-    intros Hsh Hr Ho Hg Hf Hb. unfold mod_load_entry. rewrite Hsh. unfold bind, get_entry_m. rewrite Hg.
+    intros Hsh Hr Ho Hg Hf Hb. unfold mod_load_entry, mod_load_own. rewrite Hsh. unfold bind, get_entry_m. rewrite Hg.
     rewrite (find_bad cl i k p f e s Hr Ho Hg Hf Hb). reflexivity.
   Qed.
 
@@ -1201,7 +1221,7 @@ Section Surfaces.
     (is_global (mod_at i) = false -> is_qualified k = false -> tv_ts v = true) ->
     mod_load_entry w ixs LE FD cl i k s = (leaf_state s i k p v, Ok (Some (Some v))).
   Proof.
-    intros Hsh Hr Ho Hg Hf Hl Hts. unfold mod_load_entry. rewrite Hsh. unfold bind, get_entry_m. rewrite Hg.
+    intros Hsh Hr Ho Hg Hf Hl Hts. unfold mod_load_entry, mod_load_own. rewrite Hsh. unfold bind, get_entry_m. rewrite Hg.
     assert (Hfind : find w ixs LE FD cl i k s = (leaf_state s i k p v, Ok (Some (Some v)))).
     { apply (find_routes cl i k p s _ Hr Ho); [|exact Hts].
       intros origins Hp. subst p. apply (instantiate_leaf cl i k origins f v s); assumption. }
@@ -1436,11 +1456,11 @@ Section Absent.
     Definition absent_res (r : res eres) : Prop :=
       r = Ok (Some None) \/ r = Fuel \/ r = Er EInvalidName.
 
-    Lemma mod_load_entry_absent cl i k s s' r :
-      Inv w s -> shadow w k = None -> chain_absent i k ->
-      mod_load_entry w ixs LE FD cl i k s = (s', r) -> absent_res r /\ same_b s s'.
+    Lemma mod_load_own_absent cl i k s s' r :
+      Inv w s -> chain_absent i k ->
+      mod_load_own w ixs LE FD cl i k s = (s', r) -> absent_res r /\ same_b s s'.
     Proof.
-      intros Hi Hs Hc Hm. unfold mod_load_entry in Hm. rewrite Hs in Hm. unfold bind, get_entry_m in Hm.
+      intros Hi Hc Hm. unfold mod_load_own in Hm. unfold bind, get_entry_m in Hm.
       destruct (get_entry s i k) as [[v|]|] eqn:Hg.
       - exfalso. apply (backed_not_absent i k v Hc). apply (inv_val w _ Hi i k v Hg).
       - inversion Hm; subst. split; [left; reflexivity|apply same_b_refl].
@@ -1449,6 +1469,14 @@ Section Absent.
           split; [left; reflexivity|]. apply (same_b_placeholder s i k Hg).
         + inversion Hm; subst. split; [right; left; reflexivity|apply same_b_refl].
         + inversion Hm; subst. split; [right; right; reflexivity|apply same_b_refl].
+    Qed.
+
+    Lemma mod_load_entry_absent cl i k s s' r :
+      Inv w s -> shadow w k = None -> chain_absent i k ->
+      mod_load_entry w ixs LE FD cl i k s = (s', r) -> absent_res r /\ same_b s s'.
+    Proof.
+      intros Hi Hs Hc Hm. unfold mod_load_entry in Hm. rewrite Hs in Hm.
+      exact (mod_load_own_absent cl i k s s' r Hi Hc Hm).
     Qed.
   End LayerAbsent.
 
@@ -1466,6 +1494,31 @@ Section Absent.
   Proof.
     intros Hi Hm. destruct (spec_layers w Hsh n) as [H1 H2].
     exact (proj1 (spec_mod_load_entry w Hsh _ _ H1 H2 cl i k s s' r Hi I Hm)).
+  Qed.
+
+  Lemma chain_inv n np cl i k s s' r :
+    Inv w s -> chain_load_entry w ixs (LEn w ixs n) (FDn w ixs n) np cl i k s = (s', r) -> Inv w s'.
+  Proof.
+    intros Hi Hm. destruct (spec_layers w Hsh n) as [H1 H2].
+    exact (proj1 (spec_chain_load_entry w Hsh _ _ H1 H2 np cl i k s s' r Hi I Hm)).
+  Qed.
+
+  (* a chain of file-based loaders none of which has a file for the name *)
+  Lemma chain_load_entry_absent n np : forall cl i k s s' r,
+    Inv w s -> shadow w k = None -> (forall i, chain_absent i k) ->
+    chain_load_entry w ixs (LEn w ixs n) (FDn w ixs n) np cl i k s = (s', r) -> absent_res r /\ same_b s s'.
+  Proof.
+    induction np as [|np IH]; intros cl i k s s' r Hi Hs Hc Hm; cbn [chain_load_entry] in Hm.
+    - exact (mod_load_entry_absent _ _ (FDn_absent n) cl i k s s' r Hi Hs (Hc i) Hm).
+    - unfold bind in Hm.
+      destruct (chain_load_entry w ixs (LEn w ixs n) (FDn w ixs n) np cl (S i) k s) as [s1 r1] eqn:E1.
+      destruct (IH cl (S i) k s s1 r1 Hi Hs Hc E1) as [Hr1 Hb1].
+      pose proof (chain_inv n np cl (S i) k s s1 r1 Hi E1) as Hi1.
+      destruct Hr1 as [->|[->| ->]].
+      + destruct (mod_load_own_absent _ _ (FDn_absent n) cl i k s1 s' r Hi1 (Hc i) Hm) as [Hr Hb].
+        split; [exact Hr|]. eapply same_b_trans; eauto.
+      + inversion Hm; subst. split; [right; left; reflexivity|exact Hb1].
+      + inversion Hm; subst. split; [right; right; reflexivity|exact Hb1].
   Qed.
 
   Lemma dep_value_not_absent s k v :
@@ -1529,6 +1582,7 @@ Section Absent.
         destruct (dep_find w ixs (LEn w ixs n) (FDn w ixs n) cl k s) as [s1 r1] eqn:Ef.
         destruct (Hfind s1 r1 eq_refl) as [[->|[->|[->| ->]]] Hb]; inversion Ht; subst; split; auto;
           try (left; reflexivity); try (right; left; reflexivity); try (right; right; reflexivity).
+    - exact (chain_load_entry_absent n _ cl 0 k s s' r Hi Hs Hc Ht).
   Qed.
 
   Lemma LEn_absent n cl k s s' r :
@@ -1595,4 +1649,66 @@ Proof.
   assert (Hix : nth i (indexes_of w) [] = []).
   { apply nth_overflow. unfold indexes_of. rewrite map_length. exact Hl. }
   rewrite Hix. reflexivity.
+Qed.
+
+(* ------------------------------------------------------------------------------------------------------------ *)
+(* Part 10: a chain of file-based loaders (environment <- module <- ...): what a loader up the chain has bound is
+   what a lookup through the loaders below it answers, whatever those have cached themselves *)
+
+Section ChainParent.
+  Variable w : world.
+  Let ixs := indexes_of w.
+  Variable LE : ctxl -> str -> M eres.
+  Variable FD : ctxl -> nat -> str -> M eres.
+
+  Lemma mod_load_own_hit cl i k e s :
+    get_entry s i k = Some e -> mod_load_own w ixs LE FD cl i k s = (s, Ok (Some e)).
+  Proof. intros Hg. unfold mod_load_own, bind, get_entry_m. rewrite Hg. reflexivity. Qed.
+
+  (* every loader from i upwards has cached a miss *)
+  Lemma chain_all_missed np : forall cl i k s,
+    shadow w k = None -> (forall j, i <= j <= i + np -> get_entry s j k = Some None) ->
+    chain_load_entry w ixs LE FD np cl i k s = (s, Ok (Some None)).
+  Proof.
+    induction np as [|np IH]; intros cl i k s Hs Hall; cbn [chain_load_entry].
+    - unfold mod_load_entry. rewrite Hs. apply mod_load_own_hit. apply Hall. lia.
+    - unfold bind. rewrite (IH cl (S i) k s Hs); [|intros j Hj; apply Hall; lia].
+      apply mod_load_own_hit. apply Hall. lia.
+  Qed.
+
+  (* loader j (i <= j <= i + np) has bound v, the loaders above it have cached misses; the loaders below it may
+     hold anything (a stale cached miss in particular) *)
+  Lemma chain_parent_wins np : forall cl i k s j v,
+    shadow w k = None -> i <= j <= i + np -> get_entry s j k = Some (Some v) ->
+    (forall j', j < j' <= i + np -> get_entry s j' k = Some None) ->
+    chain_load_entry w ixs LE FD np cl i k s = (s, Ok (Some (Some v))).
+  Proof.
+    induction np as [|np IH]; intros cl i k s j v Hs Hj Hv Hab; cbn [chain_load_entry].
+    - assert (j = i) by lia. subst j. unfold mod_load_entry. rewrite Hs. apply mod_load_own_hit. exact Hv.
+    - unfold bind. destruct (Nat.eq_dec j i) as [->|Hne].
+      + rewrite (chain_all_missed np cl (S i) k s Hs); [|intros j' Hj'; apply Hab; lia].
+        apply mod_load_own_hit. exact Hv.
+      + rewrite (IH cl (S i) k s j v Hs); [reflexivity|lia|exact Hv|intros j' Hj'; apply Hab; lia].
+  Qed.
+End ChainParent.
+
+Lemma step_chain_parent_binding w n s ctx name j v :
+  let k := norm_name name in
+  w_top w = TopChain -> shadow w k = None -> j < length (w_mods w) ->
+  get_entry s j k = Some (Some v) ->
+  (forall j', j < j' < length (w_mods w) -> get_entry s j' k = Some None) ->
+  exists v', step w (indexes_of w) (S n) s (OpLoad ctx name) = (s, (OFound v', [])) /\
+             tv_name v' = tv_name v /\ tv_ts v' = tv_ts v /\ (v' = v \/ tv_marker v' = 0%N).
+Proof.
+  intros k Ht Hsh Hj Hv Hab. unfold step. fold k. unfold load, bind.
+  assert (HLE : LEn w (indexes_of w) (S n) (top_ctx ctx) k s = (s, Ok (Some (Some v)))).
+  { change (LEn w (indexes_of w) (S n) (top_ctx ctx) k s)
+      with (ctx_load_entry w (indexes_of w) (LEn w (indexes_of w) n) (FDn w (indexes_of w) n) (top_ctx ctx) k s).
+    unfold ctx_load_entry, top_load_entry. rewrite Ht.
+    pose proof (chain_parent_wins w (LEn w (indexes_of w) n) (FDn w (indexes_of w) n) (length (w_mods w) - 1)
+                  (top_ctx ctx) 0 k s j v Hsh ltac:(lia) Hv ltac:(intros j' Hj'; apply Hab; lia)) as Hm.
+    destruct (cl_ctx (top_ctx ctx)); [unfold bind|]; rewrite Hm; reflexivity. }
+  rewrite HLE. cbn [ret out_of_res]. rewrite skipn_all.
+  eexists. split; [reflexivity|].
+  destruct (existsb (N.eqb (tv_marker v)) (st_unres s)); cbn [tv_name tv_ts tv_marker]; auto.
 Qed.
